@@ -247,7 +247,7 @@ Print Assumptions C04_gap_least_is_least.
 
 Theorem C04_join_replay_bounded : forall c : lcase, l_var c = fixed -> forall i G,
   gap_ok G (l_pkts c) = true -> length (c_prefill (s_cs _ (lrun c) i)) <= 3 + G.
-Proof. exact (fun c H i => proj2 (proj2 (prefill_facts c H i))). Qed.
+Proof. exact (fun c H i => proj1 (proj2 (proj2 (prefill_facts c H i)))). Qed.
 Print Assumptions C04_join_replay_bounded.
 
 Theorem C04_model_passes : forall c : lcase,
